@@ -219,6 +219,74 @@ var c12Layouts = []NamedLayout{
 	{"mixed", gen.EmitOpts{Quote: 2, Parens: 0.1}, gen.Layout{Semi: 0.5, Space: 1, StmtNL: 0.8, NL: 0.1}},
 }
 
+// nestingContexts put a pair of statements where statement lists can occur below the top level: the body of a function
+// expression in every expression position that takes one (a for-header's declaration / expression, a condition, a call
+// argument, an object value, an array element, an operand, a return value, an immediately invoked function), and block
+// bodies below control statements. What the parser requires of a statement does not depend on where its list stands.
+var nestingContexts = []struct {
+	name  string
+	block bool // plain blocks: the pair must be valid outside a function
+	mk    func(body []*gen.Node) *gen.Node
+}{
+	{"for-let-init", false, func(b []*gen.Node) *gen.Node {
+		return gen.Prog(&gen.Node{K: gen.KFor, Kids: []*gen.Node{gen.Let("h", fnx(b)), gen.Id("c"), gen.Post("++", gen.Id("c")), {K: gen.KBlock}}})
+	}},
+	{"for-expr-init", false, func(b []*gen.Node) *gen.Node {
+		return gen.Prog(&gen.Node{K: gen.KFor, Kids: []*gen.Node{gen.Asg("=", gen.Id("h"), fnx(b)), nil, nil, gen.ExprStmt(gen.Id("a"))}})
+	}},
+	{"for-test", false, func(b []*gen.Node) *gen.Node {
+		return gen.Prog(&gen.Node{K: gen.KFor, Kids: []*gen.Node{nil, gen.Call(fnx(b)), nil, {K: gen.KBlock}}})
+	}},
+	{"for-update", false, func(b []*gen.Node) *gen.Node {
+		return gen.Prog(&gen.Node{K: gen.KFor, Kids: []*gen.Node{nil, gen.Id("c"), gen.Asg("=", gen.Id("h"), fnx(b)), {K: gen.KBlock}}})
+	}},
+	{"let-init", false, func(b []*gen.Node) *gen.Node { return gen.Prog(gen.Let("h", fnx(b)), gen.ExprStmt(gen.Id("a"))) }},
+	{"call-argument", false, func(b []*gen.Node) *gen.Node {
+		return gen.Prog(gen.ExprStmt(gen.Call(gen.Id("f"), gen.Num("1"), fnx(b), gen.Id("a"))))
+	}},
+	{"object-value", false, func(b []*gen.Node) *gen.Node {
+		return gen.Prog(gen.ExprStmt(gen.Asg("=", gen.Id("o"), &gen.Node{K: gen.KObj, Kids: []*gen.Node{gen.Id("k"), fnx(b), gen.Id("m"), gen.Num("2")}})))
+	}},
+	{"array-element", false, func(b []*gen.Node) *gen.Node {
+		return gen.Prog(gen.ExprStmt(gen.Asg("=", gen.Id("o"), &gen.Node{K: gen.KArr, Kids: []*gen.Node{fnx(b), gen.Num("2")}})))
+	}},
+	{"if-condition", false, func(b []*gen.Node) *gen.Node {
+		return gen.Prog(&gen.Node{K: gen.KIf, Kids: []*gen.Node{gen.Call(fnx(b)), gen.ExprStmt(gen.Id("a")), gen.ExprStmt(gen.Id("b"))}})
+	}},
+	{"while-condition", false, func(b []*gen.Node) *gen.Node {
+		return gen.Prog(&gen.Node{K: gen.KWhile, Kids: []*gen.Node{gen.Call(fnx(b)), {K: gen.KBlock}}})
+	}},
+	{"operand", false, func(b []*gen.Node) *gen.Node {
+		return gen.Prog(gen.ExprStmt(gen.Asg("=", gen.Id("a"), gen.Bin("+", gen.Id("b"), gen.Bin("*", fnx(b), gen.Num("2"))))))
+	}},
+	{"return-value", false, func(b []*gen.Node) *gen.Node {
+		return gen.Prog(&gen.Node{K: gen.KFuncDecl, Name: "outer", Kids: []*gen.Node{{K: gen.KReturn, Kids: []*gen.Node{fnx(b)}}}})
+	}},
+	{"iife", false, func(b []*gen.Node) *gen.Node { return gen.Prog(gen.ExprStmt(gen.Call(fnx(b), gen.Id("a")))) }},
+	{"index", false, func(b []*gen.Node) *gen.Node {
+		return gen.Prog(gen.ExprStmt(gen.Idx(gen.Id("a"), gen.Call(fnx(b)))))
+	}},
+	{"nested-function-expression", false, func(b []*gen.Node) *gen.Node {
+		return gen.Prog(gen.Let("h", fnx([]*gen.Node{gen.Let("k", fnx(b)), {K: gen.KReturn, Kids: []*gen.Node{gen.Id("k")}}})))
+	}},
+	{"block-in-function", true, func(b []*gen.Node) *gen.Node {
+		return gen.Prog(&gen.Node{K: gen.KFuncDecl, Name: "outer", Kids: []*gen.Node{{K: gen.KBlock, Kids: b}, gen.ExprStmt(gen.Id("a"))}})
+	}},
+	{"if-else-blocks", true, func(b []*gen.Node) *gen.Node {
+		return gen.Prog(&gen.Node{K: gen.KIf, Kids: []*gen.Node{gen.Id("c"), {K: gen.KBlock, Kids: []*gen.Node{gen.ExprStmt(gen.Id("a"))}}, {K: gen.KBlock, Kids: b}}})
+	}},
+	{"for-body-block", true, func(b []*gen.Node) *gen.Node {
+		return gen.Prog(&gen.Node{K: gen.KFor, Kids: []*gen.Node{gen.Let("i", gen.Num("0")), gen.Id("c"), nil, {K: gen.KBlock, Kids: b}}})
+	}},
+	{"while-body-block-in-block", true, func(b []*gen.Node) *gen.Node {
+		return gen.Prog(&gen.Node{K: gen.KBlock, Kids: []*gen.Node{{K: gen.KWhile, Kids: []*gen.Node{gen.Id("c"), {K: gen.KBlock, Kids: b}}}}})
+	}},
+}
+
+func fnx(body []*gen.Node) *gen.Node {
+	return &gen.Node{K: gen.KFunc, Params: []string{"p"}, Kids: body}
+}
+
 func init() {
 	nf := len(stmtForms)
 	fw.Register(&fw.Property{
@@ -244,6 +312,21 @@ func init() {
 				}
 				runC12(t, prog, c12Layouts[t.Index%len(c12Layouts)])
 				t.Distinct(prog.S())
+			}},
+			{Name: "nested-statement-lists", Quick: len(nestingContexts) * nf * nf / 12, Thorough: len(nestingContexts) * nf * nf, Run: func(t *fw.T) {
+				idx := t.Index
+				if !t.Thorough() {
+					idx = (t.Index*12 + int(t.W.Seed)%12) % (len(nestingContexts) * nf * nf)
+				}
+				c := nestingContexts[idx/(nf*nf)]
+				f1, f2 := stmtForms[(idx/nf)%nf], stmtForms[idx%nf]
+				if c.block && (f1.fn || f2.fn) {
+					return
+				}
+				prog := c.mk([]*gen.Node{f1.mk(1), f2.mk(2)})
+				runC12(t, prog, c12Layouts[t.Index%len(c12Layouts)])
+				t.Distinct(prog.S())
+				t.Feature("nesting-contexts", c.name)
 			}},
 			{Name: "known-finding-witnesses", Quick: 8, Thorough: 8, Run: func(t *fw.T) {
 				// the stored witness of every open finding is re-run itself, so each listed finding is exercised by every run
